@@ -12,6 +12,7 @@ namespace Dos.Handlers
 @[simp] theorem isPanic_panic (s : String) : (Out.panic s).isPanic = true := rfl
 @[simp] theorem all_xpubCastSelf : Cfg.all.xpubCastSelf = true := rfl
 @[simp] theorem all_xpubCastPeer : Cfg.all.xpubCastPeer = true := rfl
+@[simp] theorem all_xpubIdx : Cfg.all.xpubIdx = true := rfl
 @[simp] theorem all_gdkgGuard : Cfg.all.gdkgGuard = true := rfl
 @[simp] theorem all_dealsDkgNil : Cfg.all.dealsDkgNil = true := rfl
 @[simp] theorem all_dealsCast : Cfg.all.dealsCast = true := rfl
